@@ -55,7 +55,14 @@ fn lex_ip_schemepart(source: &[char]) -> Option<usize> {
 }
 
 fn lex_login(source: &[char]) -> Option<usize> {
-    let hostport_start = if let Some(cred_end) = source.iter().position(|c| *c == '@') {
+    // The credentials end at the first `@`. Neither they nor the host can contain whitespace or a
+    // slash, so the search stops there: an `@` further on in the text belongs to something else.
+    let cred_end = source
+        .iter()
+        .position(|c| matches!(c, '@' | '/') || c.is_whitespace())
+        .filter(|i| source[*i] == '@');
+
+    let hostport_start = if let Some(cred_end) = cred_end {
         if let Some(pass_beg) = source[0..cred_end].iter().position(|c| *c == ':') {
             if !is_uchar_plus_string(&source[pass_beg + 1..cred_end]) {
                 return None;
